@@ -1214,23 +1214,25 @@ result_t NumberDataType::parseInput(const string inputStr, unsigned int* parsedV
       errno = 0;
       if (m_divisor == 1) {
         if (hasFlag(SIG)) {
-          long signedValue = strtol(str, &strEnd, 0);
+          long long signedValue = strtoll(str, &strEnd, 0);
           if (errno == ERANGE
-          || (m_bitCount != 32 && (signedValue < 0L ? (signedValue < -(1L << (m_bitCount - 1)))
-            : (signedValue >= (1L << (m_bitCount - 1)))
-          ))) {
+          || (signedValue < 0LL ? (signedValue < -(1LL << (m_bitCount - 1)))
+            : (signedValue >= (1LL << (m_bitCount - 1)))
+          )) {
             return RESULT_ERR_OUT_OF_RANGE;  // value out of range
           }
           if (signedValue < 0 && m_bitCount != 32) {
-            value = (unsigned int)(signedValue + (1L << m_bitCount));
+            value = (unsigned int)(signedValue + (1LL << m_bitCount));
           } else {
             value = (unsigned int)signedValue;
           }
         } else {
-          value = (unsigned int)strtoul(str, &strEnd, 0);
-          if (errno == ERANGE || (m_bitCount != 32 && value >= (1U << m_bitCount))) {
+          // parsed as signed 64 bit so that a negative or too large input is detected instead of wrapped around
+          long long unsignedValue = strtoll(str, &strEnd, 0);
+          if (errno == ERANGE || unsignedValue < 0LL || unsignedValue >= (1LL << m_bitCount)) {
             return RESULT_ERR_OUT_OF_RANGE;
           }
+          value = (unsigned int)unsignedValue;
         }
         if (strEnd == nullptr || strEnd == str || (*strEnd != 0 && *strEnd != '.')) {
           return RESULT_ERR_INVALID_NUM;  // invalid value
